@@ -21,6 +21,24 @@ Theorem C25_unmarshal_string_roundtrip :
 Proof. exact text_unmarshal_string_roundtrip. Qed.
 Print Assumptions C25_unmarshal_string_roundtrip.
 
+(* at the Decoder level (parseStringValue: the trailing consume and the
+   concatenation of adjacent literals): the literal is read back as one string
+   token, and two literals separated by whitespace/comments concatenate *)
+Theorem C25_string_token_roundtrip :
+  forall ascii bs rest f, no_quote_head (consume_ws false rest) ->
+  parse_string_value (S f) (append_string ascii bs ++ rest) = SOk (bs, consume_ws false rest).
+Proof. exact text_string_value_roundtrip. Qed.
+Print Assumptions C25_string_token_roundtrip.
+
+Theorem C25_string_token_concat :
+  forall a1 bs1 a2 bs2 ws rest f,
+  consume_ws false (ws ++ append_string a2 bs2 ++ rest) = append_string a2 bs2 ++ rest ->
+  no_quote_head (consume_ws false rest) ->
+  parse_string_value (S (S f)) (append_string a1 bs1 ++ ws ++ append_string a2 bs2 ++ rest)
+  = SOk (bs1 ++ bs2, consume_ws false rest).
+Proof. exact text_string_value_concat. Qed.
+Print Assumptions C25_string_token_concat.
+
 (* with EmitASCII every output byte is printable ASCII *)
 Theorem C25_emit_ascii_printable :
   forall bs, Forall (fun b => 32 <= b2n b <= 126) (append_string true bs).
@@ -118,3 +136,8 @@ Example C25_ex_unknown_wellformed :
   exists fs, parse_fields (x00 :: [x0b; x08; x01; x8c; x00; x15; x01; x00; x00; x00]) default_dep
                           [x0b; x08; x01; x8c; x00; x15; x01; x00; x00; x00] [] = Ok fs.
 Proof. eexists. vm_compute. reflexivity. Qed.
+(* the hypotheses of the string-token theorems are satisfiable *)
+Example C25_ex_token_hyps :
+  no_quote_head (consume_ws false [x20; x23; x22; x0a; x7d]) /\
+  consume_ws false ([x20; x0a] ++ append_string false [x41] ++ [x7d]) = append_string false [x41] ++ [x7d].
+Proof. split; reflexivity. Qed.
